@@ -132,16 +132,6 @@ def main(argv=None) -> int:
                                     + json.dumps(xr["mismatches"][:5]))
             extra["model_cross_validation"] = {
                 "classes_checked": xr["checked"], "mismatches": 0}
-            if spec.selftest is not None and not args.no_selftest:
-                from pta.selftest.runner import run_selftest
-                st = run_selftest(prop, spec.selftest, model, seed)
-                extra["selftest"] = st["summary"]
-                if st["failures"]:
-                    for f in st["failures"][:20]:
-                        print("SELFTEST-FAILURE", f)
-                    raise AnalysisError(
-                        f"rule self-test failed for {len(st['failures'])} "
-                        "variant(s): checker defect")
 
         known = [k for k in load_known_findings()
                  if k["property"] == prop and k.get("status") == "open"]
@@ -157,6 +147,21 @@ def main(argv=None) -> int:
             raise AnalysisError("; ".join(coll.floor_errors))
         for fe in coll.floor_errors:
             print("NOTE:", fe)
+        # rule self-test (thorough tier, only when the tree itself is clean:
+        # on a tree with a violation every passing twin would alarm too):
+        # every breaking variant of the catalogue must make this property's
+        # check fire, every passing twin must leave it silent
+        if args.tier == "thorough" and not new and not args.no_selftest \
+                and not os.environ.get("PTA_IN_SELFTEST"):
+            from pta.selftest.runner import run_selftest
+            st = run_selftest(prop, spec.selftest, model, seed)
+            extra["selftest"] = st["summary"]
+            if st["failures"]:
+                for f in st["failures"][:20]:
+                    print("SELFTEST-FAILURE", f)
+                raise AnalysisError(
+                    f"rule self-test failed for {len(st['failures'])} "
+                    "variant(s): checker defect")
 
         if not args.no_evidence:
             write_evidence(prop, spec, coll, timer.wall(), new, old, extra)
